@@ -511,4 +511,70 @@ theorem engArithScalar_safe_raw_left' (st : St) (op : String) (tc : List String)
     rw [this, cellD_of_some (hv1 i hi)]
   · intro b' k hb'
     rw [w2.other (Nat.ne_of_lt hb'), hf1 b' k hb']
+
+/-- unfolding: tensor-scalar arithmetic, safe mode, scalar on the left, raw path: the clone is filled with the scalar,
+    then the vector-vector kernel runs on it with the tensor as second operand -/
+theorem engArithScalar_raw_safe_right (st : St) (op : String) (tc : List String) (t : Dense) (sc : ScalarArg)
+    (hta : tc.contains t.dt = true) (hk : (kernelTypes op).contains t.dt = true) (hdt : t.dt = sc.dt) (hsrc : sc.src = none)
+    (hit : t.requiresIterator = false) :
+    engArithScalar st op tc t sc false {} = (do
+      let (s, c) ← t.clone st
+      let a0 ← s.rd sc.win 1 0
+      let s ← (rangeI c.win.len).foldlM (fun s i => s.wr c.win c.win.len i a0) s
+      let s ← eOp s c.win t.win (fun x y => .app2 op x y) (vecFn op t.dt)
+      pure ⟨s, none, .fresh c⟩) := by
+  have hne : (t.dt != sc.dt) = false := by simp [hdt]
+  unfold engArithScalar
+  simp only [hta, hk, hne, ScalarArg.refresh_none _ _ hsrc, hfo_none, prepAliasT_none, hit, bind, Except.bind, pure,
+    Except.pure, Bool.not_true, Bool.false_eq_true, if_false, Bool.or_false, Bool.and_false, Bool.not_false,
+    Bool.and_true, if_true, Bool.true_or, Bool.false_and, Bool.true_and, Bool.or_true, Bool.false_or]
+
+/-- **Scalar on the left, raw path, safe mode**: cell `i` of the fresh clone is `op s t[i]` - the scalar is the FIRST
+    argument (computed by the vector kernel `vecFn op` on a scalar-filled copy and the tensor) -/
+theorem engArithScalar_safe_raw_right' (st : St) (op : String) (tc : List String) (t : Dense) (sc : ScalarArg)
+    (hta : tc.contains t.dt = true) (hk : (kernelTypes op).contains t.dt = true) (hdt : t.dt = sc.dt) (hsrc : sc.src = none)
+    (hit : t.requiresIterator = false) (hmt : t.mask = none) (hcap : t.win.len ≤ t.win.cap)
+    (hT : InBuf st t.win.buf t.win.off t.win.len) (hS : InBuf st sc.win.buf sc.win.off 1) :
+    ∃ st', engArithScalar st op tc t sc false {} = .ok ⟨st', none, .fresh (cloneOf st t)⟩ ∧ st'.mheap = st.mheap ∧
+      (∀ i, i < t.win.len → cell st' st.heap.size i =
+        some (vecFn op t.dt (cellD st sc.win.buf sc.win.off) (cellD st t.win.buf (t.win.off + i)))) ∧
+      (∀ b' k, b' < st.heap.size → cell st' b' k = cell st b' k) := by
+  rw [engArithScalar_raw_safe_right st op tc t sc hta hk hdt hsrc hit]
+  obtain ⟨s1, h1, hm1, _, hv1, hf1⟩ := clone_spec st t hmt hT.lt hT.has
+  simp only [h1, bind, Except.bind]
+  have hHc : Has s1 st.heap.size 0 t.win.len := by
+    intro i hi
+    rw [Nat.zero_add, hv1 i hi]; rfl
+  have hs0 : cell s1 sc.win.buf sc.win.off = some (cellD st sc.win.buf sc.win.off) := by
+    rw [hf1 _ _ hS.lt]
+    have := cell_some_cellD (hS.has 0 (by omega))
+    simpa using this
+  rw [rd0_of_cell hs0]
+  -- the fill
+  obtain ⟨s2, h2, w2⟩ := wrRange (cloneOf st t).win t.win.len (fun _ => cellD st sc.win.buf sc.win.off)
+    (fun s i => s.wr (cloneOf st t).win (cloneOf st t).win.len i (cellD st sc.win.buf sc.win.off)) s1
+    (by simpa only [cloneOf] using hHc) (fun s i _ _ => rfl)
+  have h2' : List.foldlM (fun s i => s.wr (cloneOf st t).win (cloneOf st t).win.len i (cellD st sc.win.buf sc.win.off)) s1
+      (rangeI (cloneOf st t).win.len) = .ok s2 := h2
+  dsimp only
+  rw [h2']
+  dsimp only
+  have hT2 : Has s2 t.win.buf t.win.off t.win.len := by
+    intro i hi
+    rw [w2.other (by simp only [cloneOf]; exact Nat.ne_of_lt hT.lt), hf1 _ _ hT.lt]
+    exact hT.has i hi
+  rw [eOp_VV s2 (cloneOf st t).win t.win _ _ Iff.rfl]
+  obtain ⟨s3, h3, w3⟩ := kVV_spec s2 (cloneOf st t).win t.win (vecFn op t.dt)
+    (by simp only [cloneOf]; exact (Nat.ne_of_lt hT.lt).symm) hcap
+    (by simpa only [cloneOf] using w2.has (by simpa only [cloneOf] using hHc)) hT2
+  simp only [cloneOf] at h3 w3 w2 ⊢
+  refine ⟨s3, by rw [h3]; rfl, (w3.mheap.trans w2.mheap).trans hm1, ?_, ?_⟩
+  · intro i hi
+    have := w3.val i hi
+    simp only [Nat.zero_add] at this
+    rw [this, cellD_of_some (by simpa using w2.val i hi)]
+    unfold cellD
+    rw [w2.other (Nat.ne_of_lt hT.lt), hf1 _ _ hT.lt]
+  · intro b' k hb'
+    rw [w3.other (Nat.ne_of_lt hb'), w2.other (Nat.ne_of_lt hb'), hf1 b' k hb']
 end TM
